@@ -88,6 +88,7 @@ func scratchDir() string {
 }
 
 func scratchCleanup() {
+	stopProfile()
 	if scratchRoot != "" {
 		os.RemoveAll(scratchRoot)
 	}
@@ -106,9 +107,16 @@ type backend struct {
 	mem *memory.MemoryKV
 	aof *aof.DiskKV
 	sql *sqlite3.SqliteKV
+
+	softResets int
 }
 
 var nopLogger = zap.NewNop()
+
+var (
+	sqliteInit    sync.Once
+	sqliteInitErr error
+)
 
 func newBackend(name string, h chord.HashFn) (*backend, error) {
 	b := &backend{name: name, hash: h}
@@ -122,6 +130,16 @@ func newBackend(name string, h chord.HashFn) (*backend, error) {
 			return nil, err
 		}
 	case "sqlite":
+		// as cmd/server does: compiler runtime with an on-disk compilation cache (worker
+		// processes then start in milliseconds)
+		sqliteInit.Do(func() {
+			dir := "/verif/.cache/wazero-kvseq"
+			os.MkdirAll(dir, 0o755)
+			sqliteInitErr = sqlite3.Initialize(dir)
+		})
+		if sqliteInitErr != nil {
+			return nil, fmt.Errorf("sqlite3.Initialize: %w", sqliteInitErr)
+		}
 		b.dir = scratchDir()
 		kv, err := sqlite3.New(sqlite3.Config{Logger: nopLogger, HashFn: h, DataDir: b.dir})
 		if err != nil {
@@ -181,6 +199,19 @@ func (b *backend) reset() error {
 		return b.sql.VerifReset()
 	}
 	return nil
+}
+
+// softReset is reset for checks that never reopen the store: for aof the in-memory state is
+// swapped for an empty one (the log keeps growing; a full reset every 2048 calls bounds it).
+func (b *backend) softReset() error {
+	if b.name == "aof" {
+		b.softResets++
+		if b.softResets%2048 != 0 {
+			b.aof.VerifSwapMemory()
+			return nil
+		}
+	}
+	return b.reset()
 }
 
 func (b *backend) close() {
@@ -339,4 +370,73 @@ func isSubseq(small, big []string) bool {
 		}
 	}
 	return j == len(small)
+}
+
+// ---------------------------------------------------------------- minimal failing histories
+
+type knownMin struct {
+	seq  []string
+	desc string
+}
+
+// minFinder remembers the minimal failing histories already reported per scope
+// (backend/hash); a longer failing history is "explained" when, for each of its divergence
+// classes, a reported minimal history with that class is a subsequence of it.
+type minFinder struct {
+	mu    sync.Mutex
+	known map[string][]knownMin
+}
+
+func newMinFinder() *minFinder { return &minFinder{known: map[string][]knownMin{}} }
+
+func (f *minFinder) add(scope string, seq []string, desc string) {
+	f.mu.Lock()
+	f.known[scope] = append(f.known[scope], knownMin{seq, desc})
+	f.mu.Unlock()
+}
+
+func (f *minFinder) unexplained(scope string, lab []string, descs []string) []string {
+	f.mu.Lock()
+	defer f.mu.Unlock()
+	var out []string
+	for _, d := range descs {
+		ok := false
+		for _, k := range f.known[scope] {
+			if k.desc == d && isSubseq(k.seq, lab) {
+				ok = true
+				break
+			}
+		}
+		if !ok {
+			out = append(out, d)
+		}
+	}
+	return out
+}
+
+// minimiseSeq removes elements greedily (first to last, repeated to a fix-point) while
+// pred stays true. pred(path) itself is evaluated first; if false the path is returned as is.
+func minimiseSeq[T any](path []T, pred func([]T) (bool, error)) ([]T, error) {
+	cur := append([]T(nil), path...)
+	ok, err := pred(cur)
+	if err != nil || !ok {
+		return cur, err
+	}
+	for changed := true; changed; {
+		changed = false
+		for i := 0; i < len(cur); i++ {
+			cand := append(append([]T(nil), cur[:i]...), cur[i+1:]...)
+			ok, err := pred(cand)
+			if err != nil {
+				return cur, err
+			}
+			if ok {
+				cur, changed = cand, true
+				i--
+			}
+		}
+	}
+	// leave the backend having last run the minimal history
+	_, err = pred(cur)
+	return cur, err
 }
